@@ -16,9 +16,19 @@ pub mod utc;
 pub use utc::*;
 
 pub(super) fn fixed_timezone(offset: &str) -> String {
-    let gmt_offset = offset[2..offset.find(':').unwrap_or(3)].to_string();
+    // The offset is formatted as `+HH:MM` (or `+HH:MM:SS`)
+    let gmt_offset = offset
+        .get(1..offset.find(':').unwrap_or(3))
+        .and_then(|hours| hours.parse::<u32>().ok())
+        .unwrap_or(0);
 
-    if gmt_offset == "0" {
+    // There are fixed offset zones only for whole hours
+    let whole_hour = offset
+        .find(':')
+        .and_then(|pos| offset.get(pos..))
+        .is_none_or(|rest| rest.chars().all(|c| c == ':' || c == '0'));
+
+    if gmt_offset == 0 || !whole_hour {
         return "UTC".into();
     }
     let gmt_sign = offset[0..1].to_string();
